@@ -33,7 +33,7 @@ CHECKS = {
     },
     "C04": {
         "scenarios": [{"name": "ledger"}, {"name": "bank"}],
-        "accept": ["history-replay:", "nonneg:", "conversion:amount:pip10", "transfer:"],
+        "accept": ["history-replay:", "nonneg:", "conversion:amount:pip10", "transfer:", "rewards:burn"],
         "technique": "Lean: AddToBalance/SubFromBalance change the column sum by exactly their amount; a transfer changes its asset's supply by minus what went to the burn address and nothing else; exact effect on EVERY (address, asset) cell of an executed batch (transfers with change outputs, ordinary conversions, bank-era requests: batchDelta), of the bank pass (yield + refund per request), of FCT burns, miner / staking-record rewards, developer rewards and the mint — nobody else's balance moves. Tie: era-crossing lock-step chain; monitor recomputes every balance from the recorded history + scheduled adjustments after every block",
         "assumptions": [ORACLES, "block-level sum of all event kinds is checked by the monitor, proved only per event kind (transfer, rejected batch)"],
         "design_ref": "DESIGN.md §7 C04",
@@ -96,7 +96,7 @@ CHECKS = {
     },
     "C13": {
         "scenarios": [{"name": "admission"}, {"name": "ledger"}, {"name": "avgwindow"}],
-        "accept": ["admission:"],
+        "accept": ["admission:", "holding:passed-over"],
         "technique": "Lean: average_available_iff_window_has_quotes — along every in-order chain without window holes the average of an asset is unavailable exactly when the height window of the committed rate table holds fewer than AverageRequired non-zero quotes of it, else it is their mean; Lean: outcome of a single-conversion batch equals the rule table for all pairs, heights, rates, averages and balances; corollaries per rule and the converse (admissible and funded = executed); regenerated one-way set, guard and reject codes. Tie: applyTransactionBatch (hook) over pairs x heights around every activation x rate/average patterns vs the model and the table; lock-step chains with runs of zero (out-of-band) quotes around ungraded blocks under PIP-10, with the availability rule stated on the recorded rates (no executed conversion on an asset with fewer than AverageRequired non-zero quotes among the last AveragePeriod rated heights)",
         "assumptions": ["PEG-destination rule from 2.0 lives in the holding path (ValidatePegTx) and is exercised by the lock-step chains"],
         "design_ref": "DESIGN.md §7 C13",
